@@ -78,6 +78,15 @@ func main() {
 		debugTrace(p, *dbg)
 		return
 	}
+	if strings.HasPrefix(*prop, "cb:") {
+		p, err := LoadProgram(*repo, overlay, nil, "")
+		if err != nil {
+			fmt.Println(err)
+			os.Exit(2)
+		}
+		debugCB(NewCtx(p, "dbg"), strings.TrimPrefix(*prop, "cb:"))
+		return
+	}
 	run, ok := registry[*prop]
 	if !ok {
 		var ids []string
